@@ -12,6 +12,9 @@
 (*   Determinism  every answer of every thread equals the single-threaded  *)
 (*                answer to the same query; the single-threaded answers    *)
 (*                before and after are the same                            *)
+(*   Crash        a {"e":"crash"} line: the case died in or after its      *)
+(*                concurrent phase although the same programs complete on  *)
+(*                one thread (the executor isolates every case in a child) *)
 (* Reported as DRIFT (never a violation of C20): a single-threaded answer  *)
 (* that differs from the sequential definition Eval of OVMReadersDefs -    *)
 (* the model used by OVMReadersMC would then not describe this code.       *)
@@ -59,6 +62,14 @@ TNext ==
             /\ ndrift' = ndrift + Cardinality(r.drift)
             /\ fresh' = FALSE
             /\ UNCHANGED <<cur, alph>>
+       [] ln.e = "crash" ->
+            \* the forked case died.  The executor and the programs are in contract, the single-threaded
+            \* reference run of the same queries had completed (phase >= 2) and the same programs run to
+            \* completion on one thread: only the library under concurrent const queries can be the cause.
+            LET b == IF ln.phase >= 2 /\ ln.seq_replay_ok THEN "C20:CrashUnderConcurrency" ELSE "MACHINERY:crash-single-threaded" IN
+            /\ PrintT(<<"VXBAD", l, ln.case, 0, b>>)
+            /\ nbad' = nbad + 1
+            /\ UNCHANGED <<nchk, ndrift, cur, alph, fresh>>
        [] OTHER -> UNCHANGED <<nbad, nchk, ndrift, cur, alph, fresh>>
 
 TSpec == TInit /\ [][TNext]_tvars
